@@ -38,13 +38,28 @@ def gen_proto(tier, rng):
     return [proto.gen_history(rng, i, rng.choice([12, 25, 40, 60])) for i in range(n)]
 
 
+
+def gen_fault_compaction(tier, rng):
+    """every fault position (limit 60) of short histories that end in a real table compaction: the
+    files a failed installation leaves behind are what the next open needs (a manifest append that
+    reached the file and was then reported as failed references the outputs)"""
+    cases = []
+    for i in range(2 if tier == "quick" else 30):
+        v = lambda: "x%02x%02x" % (rng.randrange(256), rng.randrange(256))
+        cfg = "4096:4096:256:%d" % rng.randrange(2)
+        toks = ["dc%d" % i, cfg, "Px61=" + v(), "Px62=" + v(), "C-:-", "Px61=" + v(), "Px63=" + v(), "Cxfe:xff",
+                "Dx62" if rng.random() < 0.5 else "Px62=" + v(), "C-:-", "Gx61", "Gx62", "Gx63"]
+        cases.append("%s # 60" % " ".join(toks))
+    return cases
+
 def suites(tier, seed, rng):
     return [dbh.DbSuite(dbh.corpus("C11") + gen_cases(tier, rng)),
             crash.CrashSuite(gen_crash(tier, rng), WANT),
             proto.ProtoSuite(gen_proto(tier, rng)),
             names.NamesSuite(names.gen_cases(tier, rng)),
             sched.SchedSuite(sched.gen_cases(tier, rng, {"walgc"})),
-            fault.FaultSuite(["%s # %d" % (" ".join(fault.gen_history(rng, "f%d" % i, rng.choice([12, 20]))), 2 if tier == "quick" else 20)
+            fault.FaultSuite(gen_fault_compaction(tier, rng) +
+                             ["%s # %d" % (" ".join(fault.gen_history(rng, "f%d" % i, rng.choice([12, 20]))), 2 if tier == "quick" else 20)
                               for i in range(3 if tier == "quick" else 60)])]
 
 
